@@ -417,7 +417,7 @@ Proof.
   unfold handleSegment.
   destruct (negb (estate t0 =? stConnected)); [apply Quiet, ackonly_refl|].
   destruct (has (s_flags sg) fRst).
-  { destruct (acceptable _ _ _); [apply Quiet, resetConnection_ackonly|].
+  { destruct (acceptable _ _ _); [apply Quiet, abortOnReset_ackonly|].
     apply Quiet. eapply ackonly_trans; [|apply loopExit_ackonly].
     destruct (negb (rcvNxt (RC t0) =? maxSentAck (SN t0))); [apply sendAck_ackonly|apply ackonly_refl]. }
   cbv zeta.
